@@ -7,5 +7,5 @@ CONSTANTS
   MaxPairs = @MAXPAIRS@
 INIT Init
 NEXT Next
-INVARIANTS PostOK Documented
+INVARIANTS PostOK Documented Emit
 CHECK_DEADLOCK FALSE
